@@ -90,7 +90,7 @@ SegClass(q16, a, b, in16, out16) ==
   IN [near |-> interior /\ in16 > 0 /\ distLT(in16), far |-> ~distLT(out16), interior |-> interior,
       t256 |-> IF L2 = 0 THEN 0 ELSE ((dot \div 16) * 256) \div (L2 \div 16)]
 
-StrokeMem(tag, g, sp, q) ==
+StrokeMem(tag, g, sp, q, cs0) ==     \* cs0 = StrokeContours(tag, g), computed once per layer
   IF tag = "circle"
   THEN \* annulus about the centre: |r - w/2| .. r + w/2   (no dashes judged on circles)
        LET q16 == Q16(q)
@@ -112,7 +112,7 @@ StrokeMem(tag, g, sp, q) ==
                           /\ RectIn(q, <<g[1] + reach, g[2] + reach, g[3] - 2 * reach, g[4] - 2 * reach, -1, -1>>)
        IN IF ~grown \/ shrunk THEN "out" ELSE "band"
   ELSE
-  LET cs == StrokeContours(tag, g)
+  LET cs == cs0
       q16 == Q16(q)
       hw16 == 8 * sp.w
       in16 == hw16 - Beta16
@@ -132,12 +132,16 @@ StrokeMem(tag, g, sp, q) ==
       OnAt(c, i)  == ~dashed \/ (AllIntLen(c) /\ DashClass(arr, 1, 0, Phase(c, i), Beta16 + 1) = "on")
       OffAt(c, i) == dashed /\ AllIntLen(c) /\ DashClass(arr, 1, 0, Phase(c, i), capext16 + Beta16 + 1) = "off"
       segs == UNION { {<<c, i>> : i \in 1..NSegs(cs[c])} : c \in 1..Len(cs) }
-  IN IF \E ci \in segs : Cls(cs[ci[1]], ci[2]).near /\ OnAt(cs[ci[1]], ci[2]) THEN "in"
-     ELSE IF \A ci \in segs : Cls(cs[ci[1]], ci[2]).far THEN "out"
-     \* inside the reach of the path, but every segment within reach has the projection of q in a gap
-     ELSE IF dashed /\ \A ci \in segs : Cls(cs[ci[1]], ci[2]).far
-                                        \/ (Cls(cs[ci[1]], ci[2]).interior /\ OffAt(cs[ci[1]], ci[2])
-                                            /\ ~\E cj \in segs : cj # ci /\ ~Cls(cs[cj[1]], cj[2]).far)
+      \* classify q against every segment ONCE (a function is evaluated eagerly, operators are not memoised)
+      CL == [ci \in segs |-> Cls(cs[ci[1]], ci[2])]
+      near == {ci \in segs : CL[ci].near}
+      reach == {ci \in segs : ~CL[ci].far}
+  IN IF \E ci \in near : OnAt(cs[ci[1]], ci[2]) THEN "in"
+     ELSE IF reach = {} THEN "out"
+     \* inside the reach of exactly one segment, and the projection of q onto it is well inside a gap
+     ELSE IF dashed /\ Cardinality(reach) = 1
+             /\ (LET ci == CHOOSE ci \in reach : TRUE
+                 IN CL[ci].interior /\ OffAt(cs[ci[1]], ci[2]))
           THEN "out"
      ELSE "band"
 
